@@ -157,11 +157,24 @@ Print Assumptions wrap_failure_closes.
 (* non-vacuity: a TLS close over a stapled pair cancelled inside the shutdown closes both leaves; the handshake
    hypotheses of wrap_failure_closes are satisfiable *)
 Example ex_tls_cancel :
-  let '(r, w', _) := run_path (PTransport (TTls {| t_std := true; t_unwrap := 2; t_hs := 0 |}
+  let '(r, w', _) := run_path (PTransport (TTls {| t_std := true; t_unwrap := 2; t_hs := 0; t_unread := false; t_flush := 0 |}
                                            (BStapled (BLeaf 0 1) (BLeaf 1 2)))) env0 (world0 false) [XStep; XCancel] in
   r = RCancel /\ w_leaf w' 0 = true /\ w_leaf w' 1 = true.
 Proof. vm_compute. repeat split. Qed.
 Example ex_wrap_timeout :
-  let '(r, w', _) := tls_wrap {| t_std := true; t_unwrap := 0; t_hs := 2 |} (BLeaf 0 1) env0 (world0 false) [XStep; XTimeout] in
+  let '(r, w', _) := tls_wrap {| t_std := true; t_unwrap := 0; t_hs := 2; t_unread := false; t_flush := 0 |} (BLeaf 0 1) env0 (world0 false) [XStep; XTimeout] in
   r = RTimeoutErr /\ w_leaf w' 0 = true.
+Proof. vm_compute. split; reflexivity. Qed.
+
+(* unread application data when the close starts: a cancellation inside the flush of the close_notify alert still
+   closes the wrapped transport; a shutdown timeout there does too and aclose() returns normally *)
+Example ex_tls_flush_cancel :
+  let '(r, w', _) := run_path (PTransport (TTls {| t_std := true; t_unwrap := 0; t_hs := 0; t_unread := true; t_flush := 1 |}
+                                           (BLeaf 0 1))) env0 (world0 false) [XCancel] in
+  r = RCancel /\ w_leaf w' 0 = true.
+Proof. vm_compute. split; reflexivity. Qed.
+Example ex_tls_flush_timeout :
+  let '(r, w', _) := run_path (PTransport (TTls {| t_std := true; t_unwrap := 0; t_hs := 0; t_unread := true; t_flush := 1 |}
+                                           (BLeaf 0 1))) env0 (world0 false) [XTimeout] in
+  r = ROk /\ w_leaf w' 0 = true.
 Proof. vm_compute. split; reflexivity. Qed.
